@@ -157,7 +157,12 @@ func (_this *cteListener) ExitVersion(ctx *parser.VersionContext) {
 		panic(fmt.Errorf("expected a version string"))
 	}
 	versionStr = versionStr[1:]
-	_this.eventReceiver.OnVersion(parseSmallUint(versionStr))
+	ver := parseSmallUint(versionStr)
+	// TODO: Remove this when releasing V1
+	if ver == 1 {
+		ver = 0
+	}
+	_this.eventReceiver.OnVersion(ver)
 }
 
 func (_this *cteListener) ExitValueNull(ctx *parser.ValueNullContext) {
